@@ -30,7 +30,8 @@ def inner(case):
     ident = case['identifier']
     os.makedirs(d + '/ns/run', exist_ok=True)
     os.makedirs(d + '/ns/var/www', exist_ok=True)
-    hosts = open('/etc/hosts').read() + '\n127.0.0.1 %s\n' % ident
+    idents = [ident] + list(case.get('more') or [])
+    hosts = open('/etc/hosts').read() + ''.join('\n127.0.0.1 %s\n' % x for x in idents)
     open(d + '/ns/hosts', 'w').write(hosts)
     subprocess.run(['ip', 'link', 'set', 'lo', 'up'], check=True)
     subprocess.run(['mount', '--bind', d + '/ns/run', '/run'], check=True)
@@ -70,6 +71,9 @@ def inner(case):
     def cfg(dd, ca):
         rec = C.rec_hook('rec', ['post-operation', 'file-post-create', 'file-post-edit'], dd + '/hooks.log')
         rec['args'] += ['ls:proofdir=' + proof_dir, 'stat:pidfile=' + pid_file, 'stat:sockfile=' + sock_file]
+        for k, x in enumerate(idents[1:]):
+            rec['args'] += ['ls:proofdir%d=%s/%s/.well-known/acme-challenge' % (k + 1, http_root, x), 'stat:pidfile%d=%s/tacd_%s.pid' % (k + 1, pid_root, x),
+                            'stat:sockfile%d=%s/tacd_%s.sock' % (k + 1, sock_root, x)]
         hooks = [group] + (['git'] if case['git'] else []) + ['rec']
         c = {
             'include': [C.REPO + '/acmed/config/default_hooks.toml'],
@@ -80,7 +84,7 @@ def inner(case):
                          'env': {'VERIF_CERT': 'acct-acc1'}}],
             'certificate': [{'account': 'acc1', 'endpoint': 'ca1', 'name': 'c0', 'key_type': 'ecdsa_p256', 'hooks': hooks,
                              'env': dict({'VERIF_CERT': 'c0'}, **env),
-                             'identifiers': [{'dns': ident, 'challenge': challenge}]}],
+                             'identifiers': [{'dns': x, 'challenge': challenge} for x in idents]}],
         }
         return c
 
@@ -115,14 +119,19 @@ def inner(case):
         st = p.get('stats') or {}
         if case.get('stale') and p['kv'].get('is_success') != 'true':
             continue      # the attempt that was made to break off: nothing was validated, the property speaks of what is left after validation
-        if (st.get('proofdir') or {}).get('entries'):
-            pb.append(('leftover-proof', 'after attempt %d the proof file is still there: %s' % (k, st['proofdir']['entries'])))
-            break
-        if (st.get('pidfile') or {}).get('exists'):
-            pb.append(('leftover-pidfile', 'after attempt %d the pid file %s is still there' % (k, pid_file)))
-            break
-        if group.endswith('unix') and (st.get('sockfile') or {}).get('exists'):
-            pb.append(('leftover-socket', 'after attempt %d the socket %s is still there' % (k, sock_file)))
+        left_ = None
+        for j in range(len(idents)):
+            sfx = '' if j == 0 else str(j)
+            if (st.get('proofdir' + sfx) or {}).get('entries'):
+                left_ = ('leftover-proof', 'after attempt %d the proof file of %s is still there: %s' % (k, idents[j], st['proofdir' + sfx]['entries']))
+            elif (st.get('pidfile' + sfx) or {}).get('exists'):
+                left_ = ('leftover-pidfile', 'after attempt %d the pid file of the responder for %s is still there' % (k, idents[j]))
+            elif group.endswith('unix') and (st.get('sockfile' + sfx) or {}).get('exists'):
+                left_ = ('leftover-socket', 'after attempt %d the socket of the responder for %s is still there' % (k, idents[j]))
+            if left_:
+                break
+        if left_:
+            pb.append(left_)
             break
     # no responder left running
     left = []
@@ -132,7 +141,7 @@ def inner(case):
                 cl = open('/proc/%s/cmdline' % pid, 'rb').read().split(b'\0')
             except OSError:
                 continue
-            if cl and os.path.basename(cl[0]) == b'tacd' and ident.encode() in b' '.join(cl):
+            if cl and os.path.basename(cl[0]) == b'tacd' and any(x.encode() in b' '.join(cl) for x in idents):
                 left.append(int(pid))
     if left:
         pb.append(('leftover-process', 'tacd still running after the clean hooks (pids %s)' % left))
@@ -203,6 +212,12 @@ def gen(tier, r):
                       # a daemonised acmed runs with umask 027; some administrators use 077
                       'umask': [None, 0o027, 0o077, 0o022][k % 4], 'idle_first': k % 3 == 1,
                       'tls': [None, '1.2'][(k // 2) % 2] if group != 'http-01-echo' else None})
+        c = cases[-1]
+        # some certificates have several identifiers (solved one after the other through the same group), some a name of more than 64 octets
+        if k % 3 == 2:
+            c['more'] = ['alt%d-%d.example.net' % (j, k) for j in range(1 + k % 2)]
+        if k % 5 == 3 and (group != 'tls-alpn-01-tacd-unix' or 'TACD_SOCK_ROOT' not in env_tpl):
+            c['identifier'] = '%s.%s.c%d.example' % ('a' * 30, 'b' * 26, k)
         k += 1
     port = lambda: str(20000 + r.randint(0, 20000))
     # http-01-echo
@@ -277,7 +292,7 @@ def run(tier):
         if c['git']:
             chk.count('git_files_checked', res.get('git_files', 0))
         if res.get('validations'):
-            chk.distinct.add((c['group'], tuple(sorted(c['env_tpl'])), c['git'], c['issuances'], c['identifier'].count('.') + 1, c.get('umask'), c.get('idle_first'), c.get('tls'), c.get('stale')))
+            chk.distinct.add((c['group'], tuple(sorted(c['env_tpl'])), c['git'], c['issuances'], c['identifier'].count('.') + 1, len(c.get('more') or []), len(c['identifier']) > 64, c.get('umask'), c.get('idle_first'), c.get('tls'), c.get('stale')))
         if not res['problems']:
             chk.sample({'group': c['group'], 'set': sorted(c['env_tpl']), 'git': c['git'], 'issuances': c['issuances'], 'identifier': c['identifier'],
                         'validations': [(v['type'], v['target'], v['ok']) for v in res['validations']][:3]})
@@ -290,7 +305,7 @@ def run(tier):
                           {k: v for k, v in res.items() if k not in ('replay_dir',)}, res.get('replay_dir'))
     chk.rule = ('each shipped group (http-01-echo, tls-alpn-01-tacd-tcp, tls-alpn-01-tacd-unix) alone and with git, every subset of its documented '
                 'environment variables set to scratch values / left to the documented default (/var/www, /run, identifier, 5001 inside a private mount and '
-                'network namespace), identifiers of 1-3 labels, 1-3 consecutive issuances validated for real by the mock CA (validation agents with library defaults or speaking TLS 1.2 at most; http-01 proofs met again after an attempt that broke off); distinct = cases with at least '
+                'network namespace), identifiers of 1-3 labels (some longer than 64 octets), certificates with 1-3 identifiers, 1-3 consecutive issuances validated for real by the mock CA (validation agents with library defaults or speaking TLS 1.2 at most; http-01 proofs met again after an attempt that broke off); distinct = cases with at least '
                 'one validation performed')
     chk.assumptions = ['unshare -m -n works (root)', 'the documented web-server mapping is <HTTP_ROOT>/<identifier>/.well-known/acme-challenge/<token>',
                        'tacd found through PATH is the binary built from /repo (release profile)']
